@@ -7,6 +7,7 @@ CONSTANTS
   Endpoints = {"pause", "continue", "state", "now", "tick", "component", "field", "buffers", "progress"}
   PauseWaits = FALSE
   HoldCtl = TRUE
+  EarlyWalk = {}
   Atomic = FALSE
   Record = FALSE
 INVARIANT NoConcurrentAccessUnderPause
